@@ -16,7 +16,6 @@
 
 import logging
 import os
-import pickle
 import re
 from pathlib import Path
 from typing import BinaryIO, Iterator, Optional
@@ -24,7 +23,7 @@ from typing import BinaryIO, Iterator, Optional
 from boolean.boolean import ParseError
 from license_expression import ExpressionError
 
-from . import _LICENSING, ReuseInfo, SourceType
+from . import ReuseInfo, SourceType, _parse_expression
 from ._util import relative_from_root
 from .comment import _all_style_classes
 from .i18n import _
@@ -160,11 +159,7 @@ def extract_reuse_info(text: str) -> ReuseInfo:
     copyright_matches = set()
     for expression in spdx_tags.pop("spdx_expressions"):
         try:
-            parsed = _LICENSING.parse(expression)
-            # An expression nested hundreds of levels deep exhausts the stack
-            # as soon as it is hashed, rendered or sent to another process.
-            # Find out here, where it is a parse error.
-            pickle.dumps((parsed, str(parsed), hash(parsed)))
+            parsed = _parse_expression(expression)
         except (ExpressionError, ParseError):
             _LOGGER.error(
                 _("Could not parse '{expression}'").format(
